@@ -170,7 +170,7 @@ pub fn run_group(a: &Args, out: &mut Out) {
         // sweep: scalars whose CANONICAL limbs come from {0, 1, 2^63, 2^64-1, r_i, r_i +- 1} (quick: one in eight, rotating with the seed)
         let (p1, p2) = (G1::one() * rand_fr(&mut rng), G2::one() * rand_fr(&mut rng));
         for (i, v) in canon_patterns(&r_modulus()).iter().enumerate() {
-            if (i as u64 + a.seed) % (if a.tier == "thorough" { 2 } else { 8 }) != 0 { continue; }
+            if (i as u64 + a.seed % 1000003) % (if a.tier == "thorough" { 2 } else { 8 }) != 0 { continue; }
             let s = Fr::from_slice(v).unwrap();
             let ss = s.to_slice();
             if i % 5 == 0 {
@@ -218,7 +218,7 @@ pub fn run_group(a: &Args, out: &mut Out) {
         // G2: z = 1 / (a + b u) with both components Montgomery-boundary pool values (Fq2 inversion and squaring add, subtract and
         // double these components)
         for i in 0..(if thorough { 500 } else { 150 }) {
-            let (pa, pb) = (Fq::from_slice(&poolq.vals[(i * 97 + 13 * a.seed as usize) % poolq.vals.len()]).unwrap(), Fq::from_slice(&poolq.vals[(i * 61 + 5) % poolq.vals.len()]).unwrap());
+            let (pa, pb) = (Fq::from_slice(&poolq.vals[(i * 97 + 13 * (a.seed % 1000003) as usize) % poolq.vals.len()]).unwrap(), Fq::from_slice(&poolq.vals[(i * 61 + 5) % poolq.vals.len()]).unwrap());
             if let Some(l) = fq2_inv(Fq2::new(pa, pb)) {
                 let mut n = G2::one() * rand_fr(&mut rng);
                 n.normalize();
@@ -323,7 +323,7 @@ pub fn run_group(a: &Args, out: &mut Out) {
             n.normalize();
             let p = g1_scale(n, l);
             out.call("g.normalize", json!({"G": "G1", "a": p.jac()}), || { let mut q = p; q.normalize(); outs! {"out" => q.jac(), "isz" => Value::Bool(q.is_zero())} });
-            if a.tier == "thorough" || (i as u64 + a.seed) % 2 == 0 {
+            if a.tier == "thorough" || (i as u64 + a.seed % 1000003) % 2 == 0 {
                 let mut n = G2::one() * rand_fr(&mut rng);
                 n.normalize();
                 let p = g2_scale(n, if i % 4 < 2 { Fq2::new(l, Fq::zero()) } else { Fq2::new(Fq::zero(), l) });
@@ -474,7 +474,7 @@ pub fn run_encode(a: &Args, out: &mut Out) {
         // ... and x values with a zero limb in their Montgomery representation (squared by AffineG1::new when the encoding is decoded)
         let xs: Vec<&Vec<u8>> = poolq.cvt.iter().chain(poolq.vals.iter().filter(|v| zero_limb(v))).collect();
         for (i, v) in xs.into_iter().enumerate() {
-            if a.tier != "thorough" && (i as u64 + a.seed) % 3 != 0 { continue; }
+            if a.tier != "thorough" && (i as u64 + a.seed % 1000003) % 3 != 0 { continue; }
             let mut w = v.clone();
             if w.iter().all(|x| *x == 0) { continue; }
             for k in (0..32).rev() { if w[k] == 0 { w[k] = 0xff; } else { w[k] -= 1; break; } }      // bytes of x - 1
@@ -494,7 +494,7 @@ pub fn run_encode(a: &Args, out: &mut Out) {
         // representatives whose 1/z (squared by to_affine) has a zero limb in its Montgomery representation: z = 1/v
         let mut m = 0usize;
         for (i, vb) in poolq.vals.iter().filter(|v| zero_limb(v)).enumerate() {
-            if (i as u64 + a.seed) % (if a.tier == "thorough" { 1 } else { 4 }) != 0 { continue; }
+            if (i as u64 + a.seed % 1000003) % (if a.tier == "thorough" { 1 } else { 4 }) != 0 { continue; }
             let v = Fq::from_slice(vb).unwrap();
             if v.is_zero() { continue; }
             m += 1;
@@ -518,7 +518,7 @@ pub fn run_encode(a: &Args, out: &mut Out) {
         reps.extend(sq_coord_points(&poolq, a.seed, if thorough { 200 } else { 40 }));
         // G2 representatives with 1/z = a + b u, both components Montgomery-boundary pool values
         for i in 0..(if thorough { 600 } else { 200 }) {
-            let (pa, pb) = (Fq::from_slice(&poolq.vals[(i * 89 + 7 * a.seed as usize) % poolq.vals.len()]).unwrap(), Fq::from_slice(&poolq.vals[(i * 53 + 11) % poolq.vals.len()]).unwrap());
+            let (pa, pb) = (Fq::from_slice(&poolq.vals[(i * 89 + 7 * (a.seed % 1000003) as usize) % poolq.vals.len()]).unwrap(), Fq::from_slice(&poolq.vals[(i * 53 + 11) % poolq.vals.len()]).unwrap());
             if let Some(l) = fq2_inv(Fq2::new(pa, pb)) {
                 let mut n = G2::one() * rand_fr(&mut rng);
                 n.normalize();
